@@ -110,13 +110,22 @@ def _one(emmet, vec, section, typ, syn, conc, tabs, bad, stats):
     except Exception as ex:
         bad.append(('Config raised', dict(case, exception=type(ex).__name__)))
         return
-    merged = getattr(conf, section)
-    for c, (kind, val) in expected.items():
-        if kind == 'absent':
-            if c in merged:
-                bad.append(('effective-value', dict(case, key=c, expected='<absent>', actual=repr(merged[c]))))
-        elif c not in merged or merged[c] != val:
-            bad.append(('effective-value', dict(case, key=c, expected=repr(val), actual=repr(merged.get(c, '<absent>')))))
+    variants = [('', conf)]
+    if (typ, syn) in (('markup', 'html'), ('stylesheet', 'css')):
+        # the syntax of the call is the default of its type: the same layers apply when the call does not name it
+        u2 = {k: v for k, v in user.items() if k != 'syntax' and not (k == 'type' and typ == 'markup')}
+        try:
+            variants.append((' (default syntax not named by the call)', emmet.Config(u2, glob)))
+        except Exception as ex:
+            bad.append(('Config raised', dict(case, exception=type(ex).__name__, variant='default syntax not named')))
+    for vname, cf in variants:
+        merged = getattr(cf, section)
+        for c, (kind, val) in expected.items():
+            if kind == 'absent':
+                if c in merged:
+                    bad.append(('effective-value' + vname, dict(case, key=c, expected='<absent>', actual=repr(merged[c]))))
+            elif c not in merged or merged[c] != val:
+                bad.append(('effective-value' + vname, dict(case, key=c, expected=repr(val), actual=repr(merged.get(c, '<absent>')))))
     if user != user_before or glob != glob_before:
         bad.append(('caller-dict-modified', case))
     # ---- through expand
